@@ -60,6 +60,12 @@ CONFIG = [
                               "_sanitize_string", "_check_number_size", "_add_padding", "_check_string_length", "_encode_ansi"]},
      # `self.string_sanitization_mode` is a property whose getter returns this field (the getter is translated as well)
      "properties": {"string_sanitization_mode": "_string_sanitization_mode"}},
+    {"tag": "Reader", "file": "src/eolib/data/eo_reader.py", "functions": [], "untyped_params": "int",
+     "classes": {"EoReader": ["__init__", "slice", "get_byte", "get_bytes", "get_char", "get_short", "get_three", "get_int", "get_string",
+                              "get_fixed_string", "get_encoded_string", "get_fixed_encoded_string", "chunked_reading_mode",
+                              "chunked_reading_mode_setter", "remaining", "next_chunk", "position", "_read_byte", "_read_bytes",
+                              "_find_next_break_index", "_remove_padding", "_decode_ansi"]},
+     "properties": {"position": "_position", "chunked_reading_mode": "_chunked_reading_mode"}},
     {"tag": "Enc", "file": "src/eolib/encrypt/encryption_utils.py",
      "functions": ["interleave", "deinterleave", "flip_msb", "swap_multiples"], "classes": {},
      # fuel handed to `while` loops (a Lean term over the parameters); running out is reported as Diverges
@@ -72,6 +78,10 @@ EXC = {"ValueError": ".ValueError", "RuntimeError": ".RuntimeError", "TypeError"
 
 
 def lean_ty(t):
+    if isinstance(t, tuple) and t[0] == "opt":
+        return f"(Option {lean_ty(t[1])})"
+    if isinstance(t, tuple) and t[0] == "obj":
+        return lean_ty(t[2])
     if isinstance(t, tuple):      # ("tuple", [t1, t2, ...])
         parts = [lean_ty(x) for x in t[1]]
         if not parts:
@@ -100,8 +110,9 @@ def ann_type(a):
         return None
     if isinstance(a, ast.Name):
         return {"int": "int", "bool": "bool", "bytes": "bytes", "bytearray": "bytes", "str": "str"}.get(a.id)
-    if isinstance(a, ast.Constant) and isinstance(a.value, str):
-        return None
+    if isinstance(a, ast.Subscript) and isinstance(a.value, ast.Name) and a.value.id == "Optional":
+        inner = ann_type(a.slice)
+        return ("opt", inner) if inner in ("int",) else None
     return None
 
 
@@ -224,6 +235,7 @@ class Module:
             self.out.append(f"-- {name}: not translated (depends on an untranslated function)")
 
     def function(self, name, cls, node):
+        node = rename_keywords(node)
         if node.args.vararg or node.args.kwarg or node.args.kwonlyargs:
             raise Unsupported("parameter kinds")
         deco = [d.id for d in node.decorator_list if isinstance(d, ast.Name)]
@@ -288,6 +300,24 @@ class Module:
 
 class NeedsLater(Exception):
     pass
+
+
+LEAN_KEYWORDS = {"end", "at", "from", "have", "show", "fun", "let", "in", "then", "else", "do", "match", "with", "where", "namespace",
+                 "section", "open", "def", "theorem", "instance", "structure", "class", "by", "if", "for", "mut", "deriving", "import",
+                 "macro", "syntax", "notation", "universe", "variable", "private", "protected", "example", "axiom", "inductive",
+                 "abbrev", "calc", "this", "Type", "Prop", "Sort", "using", "exact", "unless", "return", "try", "catch", "finally"}
+
+
+def rename_keywords(node):
+    """Python identifiers that are Lean keywords get a trailing underscore (`end` -> `end_`)"""
+    import copy
+    node = copy.deepcopy(node)
+    for n in ast.walk(node):
+        if isinstance(n, ast.Name) and n.id in LEAN_KEYWORDS:
+            n.id += "_"
+        if isinstance(n, ast.arg) and n.arg in LEAN_KEYWORDS:
+            n.arg += "_"
+    return node
 
 
 def assigned_vars(stmts):
@@ -404,6 +434,7 @@ class FnTr:
         self.outs: list[str] = []
         self.out_types: dict[str, object] = {}
         self.loop_stack: list[list[str]] = []
+        self.loop_ret_type = None
         self.aux: list[str] = []       # lifted loop bodies / conditions (top-level definitions emitted before the function)
         self.nloops = 0
 
@@ -452,6 +483,12 @@ class FnTr:
                 fld = m.cfg.get("properties", {}).get(e.attr)
                 if fld and ("self_" + fld) in env:
                     return "self_" + fld, env["self_" + fld], []
+                # a computed property: call its translated getter
+                fake = ast.Call(func=e, args=[], keywords=[])
+                r = resolve_callee(m, self.cls, fake)
+                if r is not None:
+                    val, ty, wrapper, _ = self.emit_call(r, fake, env, want_value=True)
+                    return val, ty, [wrapper]
                 raise Unsupported(f"self.{e.attr} is not a field")
             if e.attr == "value":
                 txt, ty, pre = self._expr(e.value, env)
@@ -492,6 +529,12 @@ class FnTr:
                 pre = pre + [lambda code, a=a, b=b, t=t, comb=comb: f"{comb} {a} {b} fun {t} =>\n{code}"]
                 return t, "int", pre
             raise Unsupported(f"operator {type(e.op).__name__}")
+        if isinstance(e, ast.Compare) and len(e.ops) == 1 and isinstance(e.ops[0], (ast.Is, ast.IsNot)) \
+                and isinstance(e.comparators[0], ast.Constant) and e.comparators[0].value is None:
+            x, tx, px = self._expr(e.left, env)
+            if not (isinstance(tx, tuple) and tx[0] == "opt"):
+                raise Unsupported("`is None` on a value that cannot be None")
+            return f"({x}.isNone)" if isinstance(e.ops[0], ast.Is) else f"({x}.isSome)", "bool", px
         if isinstance(e, ast.Compare):
             parts, pre = [], []
             left, tl, pl = self._expr(e.left, env)
@@ -528,6 +571,12 @@ class FnTr:
             if isinstance(e.slice, ast.Slice):
                 sl = e.slice
                 xs, tx, px = self._expr(e.value, env)
+                if tx == "bytes" and sl.step is None and sl.lower is not None and sl.upper is not None:
+                    a, ta, pa = self._expr(sl.lower, env)
+                    b, tb, pb = self._expr(sl.upper, env)
+                    if ta != "int" or tb != "int":
+                        raise Unsupported("slice bound")
+                    return f"(Py.slice {xs} {a} {b})", "bytes", px + pa + pb
                 if tx != "bytes" or sl.step is not None or (sl.lower is None) == (sl.upper is None):
                     raise Unsupported("slice")
                 k, tk, pk = self._expr(sl.upper if sl.lower is None else sl.lower, env)
@@ -576,6 +625,13 @@ class FnTr:
                     raise Unsupported("int(a / b) on non-integers")
                 t = self.fresh()
                 return t, "int", pa + pb + [lambda code, a=a, b=b, t=t: f"Py.truncDiv {a} {b} fun {t} =>\n{code}"]
+            if f.id in ("bytes", "bytearray", "memoryview") and len(e.args) == 1 and not isinstance(e.args[0], (ast.List, ast.BinOp)):
+                try:
+                    a, ta, pa = self._expr(e.args[0], env)
+                except Unsupported:
+                    ta = None
+                if ta == "bytes":
+                    return a, "bytes", pa      # a copy / a view of the same bytes: values, not identities, are modelled
             if f.id in ("bytes", "bytearray"):
                 if not e.args and f.id == "bytearray":
                     return "([] : List Int)", "bytes", []
@@ -622,6 +678,18 @@ class FnTr:
                 a, ta, pa = self._expr(f.value, env)
                 if ta == "bytes":
                     return a, "bytes", pa
+            if f.attr == "decode" and len(e.args) == 2 and all(isinstance(x, ast.Constant) for x in e.args) \
+                    and [x.value for x in e.args] == ["windows-1252", "replace"]:
+                a, ta, pa = self._expr(f.value, env)
+                if ta == "bytes":
+                    return f"(Py.decodeAnsi {a})", "str", pa
+            if f.attr == "find" and len(e.args) == 1 and isinstance(e.args[0], ast.Call) and isinstance(e.args[0].func, ast.Name) \
+                    and e.args[0].func.id == "bytes" and len(e.args[0].args) == 1 and isinstance(e.args[0].args[0], ast.List) \
+                    and len(e.args[0].args[0].elts) == 1:
+                a, ta, pa = self._expr(f.value, env)
+                c, tc, pc = self._expr(e.args[0].args[0].elts[0], env)
+                if ta == "bytes" and tc == "int":
+                    return f"(Py.findByte {a} {c})", "int", pa + pc
         r = resolve_callee(m, self.cls, e)
         if r is None:
             raise Unsupported("call")
@@ -814,7 +882,13 @@ class FnTr:
             raise Unsupported("assignment target")
         if isinstance(st, ast.Return):
             if loop is not None:
-                raise Unsupported("return inside a loop")
+                if not (loop and loop[-1] == "ret_slot") or st.value is None:
+                    raise Unsupported("return inside this kind of loop")
+                txt, ty, pre = self._expr(st.value, env)
+                if self.loop_ret_type not in (None, ty):
+                    raise Unsupported("return statements of different types in a loop")
+                self.loop_ret_type = ty
+                return self.wrap(pre, f"let ret_slot := some {txt}\n.ok ({tup(loop)}, true)")
             if st.value is None or (isinstance(st.value, ast.Constant) and st.value.value is None):
                 return self.finish(env)
             txt, ty, pre = self._expr(st.value, env)
@@ -832,7 +906,7 @@ class FnTr:
         if isinstance(st, ast.If):
             return self.if_stmt(st, body, idx, env, loop, end)
         if isinstance(st, ast.For):
-            return self.for_stmt(st, env, rest)
+            return self.for_stmt(st, env, rest, loop)
         if isinstance(st, ast.While):
             return self.while_stmt(st, env, rest)
         raise Unsupported(type(st).__name__)
@@ -875,6 +949,21 @@ class FnTr:
 
     def if_stmt(self, st, body, idx, env, loop, end):
         following = body[idx + 1:]
+        t = st.test
+        if isinstance(t, ast.Compare) and len(t.ops) == 1 and isinstance(t.ops[0], ast.Is) and isinstance(t.left, ast.Name) \
+                and isinstance(t.comparators[0], ast.Constant) and t.comparators[0].value is None and not st.orelse \
+                and len(st.body) == 1 and isinstance(st.body[0], ast.Assign) and len(st.body[0].targets) == 1 \
+                and isinstance(st.body[0].targets[0], ast.Name) and st.body[0].targets[0].id == t.left.id \
+                and isinstance(env.get(t.left.id), tuple) and env[t.left.id][0] == "opt":
+            x = t.left.id
+            inner = env[x][1]
+            txt, ty, pre = self._expr(st.body[0].value, env)
+            if pre or ty != inner:
+                raise Unsupported("default of an optional parameter")
+            env2 = dict(env)
+            env2[x] = inner
+            return (f"let {x} : {lean_ty(inner)} := match {x} with\n  | none => {txt}\n  | some v_ => v_\n"
+                    f"{self.stmts(body, idx + 1, env2, loop, end)}")
         if has_ctrl(st.body) or has_ctrl(st.orelse):
             T = self.stmts(list(st.body) + following, 0, dict(env), loop, end)
             E = self.stmts(list(st.orelse) + following, 0, dict(env), loop, end)
@@ -906,7 +995,7 @@ class FnTr:
         return f"Py.bind (α := {tys}) (\n{ind(c)}) fun {tup(carried) if carried else '_'} =>\n{restc}"
 
     def loop_state(self, st, env):
-        carried = sorted(v for v in assigned_vars(st.body) if v in env)
+        carried = sorted(v for v in mutated_vars(st.body, self.mod, self.cls) if v in env)
         tys = ("tuple", [env[v] for v in carried])
         return carried, tys
 
@@ -925,31 +1014,49 @@ class FnTr:
         self.nloops += 1
         return self.info["name"].replace(".", "_") + f"_loop{self.nloops}"
 
-    def for_stmt(self, st, env, rest):
+    def for_stmt(self, st, env, rest, outer_loop=None):
         if st.orelse or not isinstance(st.target, ast.Name):
             raise Unsupported("for loop form")
         it = st.iter
-        if not (isinstance(it, ast.Call) and isinstance(it.func, ast.Name) and it.func.id == "range" and len(it.args) == 1):
-            raise Unsupported("for loop over something other than range(n)")
-        n, tn, pre = self._expr(it.args[0], env)
-        if tn != "int":
+        if not (isinstance(it, ast.Call) and isinstance(it.func, ast.Name) and it.func.id == "range" and len(it.args) in (1, 2)):
+            raise Unsupported("for loop over something other than range(n) / range(a, b)")
+        bounds = [self._expr(a, env) for a in it.args]
+        if any(t != "int" for _, t, _ in bounds):
             raise Unsupported("range of a non-integer")
+        pre = [p for _, _, ps in bounds for p in ps]
         carried, tys = self.loop_state(st, env)
         i = st.target.id
         if i in carried:
             raise Unsupported("the loop variable is assigned before the loop and in it")
+        has_return = any(isinstance(n, ast.Return) for x in st.body for n in ast.walk(x))
+        if has_return and outer_loop is not None:
+            raise Unsupported("return inside a nested loop")
         name = self.loop_name()
+        nl = self.nloops
         envb = dict(env)
         envb[i] = "int"
-        bodyc = self.stmts(st.body, 0, envb, carried)
+        state = carried + (["ret_slot"] if has_return else [])
+        saved_rt, self.loop_ret_type = self.loop_ret_type, None
+        bodyc = self.stmts(st.body, 0, envb, state)
+        rty, self.loop_ret_type = self.loop_ret_type, saved_rt
+        if has_return:
+            if rty is None:
+                raise Unsupported("return without a value inside a loop")
+            tys = ("tuple", tys[1] + [("opt", rty)])
         sty = lean_ty(tys)
         free = self.free_vars(st.body, env, set(carried) | {i})
         fsig = "".join(f" ({v} : {lean_ty(env[v])})" for v in free)
-        self.aux.append(f"/-- body of loop {self.nloops} of `{self.info['name']}` (state: {', '.join(carried) or '-'}) -/\n"
+        self.aux.append(f"/-- body of loop {nl} of `{self.info['name']}` (state: {', '.join(state) or '-'}) -/\n"
                         f"def {name}_body{fsig} ({i} : Int) (s : {sty}) : Py.M ({sty} × Bool) :=\n"
-                        f"  let {tup(carried) if carried else '_'} := s\n{ind(bodyc)}")
+                        f"  let {tup(state) if state else '_'} := s\n{ind(bodyc)}")
         fargs = "".join(" " + v for v in free)
-        code = (f"Py.bind (Py.forRange {n} ({tup(carried)} : {sty}) ({name}_body{fargs})) fun {tup(carried) if carried else '_'} =>\n{rest(env)}")
+        init = tup(carried + ([f"(none : Option {lean_ty(rty)})"] if has_return else []))
+        comb = f"Py.forRange {bounds[0][0]}" if len(bounds) == 1 else f"Py.forRange2 {bounds[0][0]} {bounds[1][0]}"
+        if has_return:
+            after = (f"match ret_slot with\n| some ret_val =>\n{ind(self.finish(env, 'ret_val', rty))}\n| none =>\n{ind(rest(env))}")
+        else:
+            after = rest(env)
+        code = (f"Py.bind ({comb} ({init} : {sty}) ({name}_body{fargs})) fun {tup(state) if state else '_'} =>\n{after}")
         return self.wrap(pre, code)
 
     def while_stmt(self, st, env, rest):
